@@ -66,6 +66,7 @@ func init() {
 			ruleRunCoupled(c, "client")
 			c.Clause("C05-D3")
 			ruleRunGuardClient(c)
+			ruleReaderExitStops(c, "client")
 			c.Clause("C05-D4")
 			ruleFilterErrorTable(c)
 			c.Clause("C05-D5")
